@@ -645,6 +645,26 @@ func (ts *handlerTS) nilFacts(fn *ssa.Function, b *ssa.BasicBlock) map[int]bool 
 		if !ok {
 			continue
 		}
+		// the state test behind a predicate of the handler: `if h.done() { return }` with
+		// done() = h.err != nil || h.result != nil (or running() = h.err == nil && h.result == nil)
+		{
+			cond, neg := iff.Cond, false
+			if u, isU := cond.(*ssa.UnOp); isU && u.Op == token.NOT {
+				cond, neg = u.X, true
+			}
+			if pc, isCall := cond.(*ssa.Call); isCall {
+				if g := pc.Call.StaticCallee(); g != nil && len(pc.Call.Args) == 1 && m.isRecv(fn, pc.Call.Args[0]) && m.held(fn, pc) {
+					onTrue := p.Succs[0] == d
+					if neg {
+						onTrue = !onTrue
+					}
+					for f := range predicateNilFields(g, onTrue) {
+						facts[f] = true
+					}
+				}
+				continue
+			}
+		}
 		bo, ok := iff.Cond.(*ssa.BinOp)
 		if !ok || !isNilConst(bo.Y) {
 			continue
@@ -663,6 +683,51 @@ func (ts *handlerTS) nilFacts(fn *ssa.Function, b *ssa.BasicBlock) map[int]bool 
 		}
 	}
 	return facts
+}
+
+// predicateNilFields: g is a niladic bool method of the handler whose result is a disjunction of `recv.F != nil` tests
+// (all of these F are nil when it answers false) or a conjunction of `recv.F == nil` tests (all nil when it answers
+// true). Returns the fields known nil on the given outcome.
+func predicateNilFields(g *ssa.Function, outcome bool) map[int]bool {
+	out := map[int]bool{}
+	if g == nil || len(g.Blocks) == 0 || len(g.Params) != 1 || g.Signature.Results().Len() != 1 {
+		return out
+	}
+	rets := returnsOf(g)
+	if len(rets) != 1 {
+		return out
+	}
+	kind, atoms := flattenBool(rets[0].Results[0], 0)
+	if kind == "" || len(atoms) == 0 {
+		atoms = []ssa.Value{rets[0].Results[0]}
+		kind = "|"
+		if outcome {
+			kind = "&"
+		}
+	}
+	wantOp := token.NEQ // disjunction of != nil, all nil on false
+	if kind == "&" {
+		wantOp = token.EQL
+	}
+	if (kind == "|" && outcome) || (kind == "&" && !outcome) {
+		return out
+	}
+	for _, at := range atoms {
+		bo, ok := at.(*ssa.BinOp)
+		if !ok || bo.Op != wantOp || !isNilConst(bo.Y) {
+			return map[int]bool{}
+		}
+		ld, ok := bo.X.(*ssa.UnOp)
+		if !ok || ld.Op != token.MUL {
+			return map[int]bool{}
+		}
+		fa, ok := ld.X.(*ssa.FieldAddr)
+		if !ok || fa.X != ssa.Value(g.Params[0]) {
+			return map[int]bool{}
+		}
+		out[fa.Field] = true
+	}
+	return out
 }
 
 func (ts *handlerTS) runningAt(fn *ssa.Function, in ssa.Instruction) (bool, string) {
